@@ -154,8 +154,11 @@ def run(tier, seed):
                 nb.update_from_buffer(off, b"\x01" * 16)
                 nb.free(off, 16)
                 off2 = nb.allocate(1000)
-                if off != o0 or nb.capacity < cap0 or not all(eq(value(g), w) for g, w in zip(g2, wants)):
-                    bad("group:allocator-state", first_fit_offset=off, expected=o0)
+                # a working allocator: the new regions lie inside the capacity and writing into them leaves every object of the group
+                # intact (that the free list is the same as before pickling is not demanded by the statement)
+                if off < 0 or off + 16 > cap0 + max(0, nb.capacity - cap0) or off2 < 0 or off2 + 1000 > nb.capacity or nb.capacity < cap0 \
+                        or not all(eq(value(g), w) for g, w in zip(g2, wants)):
+                    bad("group:allocator-state", offset=off, second_offset=off2, capacity=nb.capacity, first_fit_offset_before_pickling=o0)
             except Exception as e:  # noqa
                 bad("group:allocator-broken", problem=f"{type(e).__name__}: {e}")
     return {
